@@ -123,6 +123,21 @@ Theorem C03_history_delivers_frames :
     exists C rest, skipn (dcurr st0) buf0 ++ concat (map fed ops) = C ++ rest /\ frames_of v (hs_msgs s) C.
 Proof. exact dec_history_delivers. Qed.
 
+(* COMPLETENESS at call level: between messages, with a frame the reference decoder accepts at the
+   front of the unread input and a gap of at least the frame length + 16 (the target alignment may
+   skip up to 15 bytes): ONE call delivers exactly that message, consumes exactly the frame and
+   leaves what follows untouched — every fragment geometry, every variant, whatever follows *)
+Theorem C03_call_delivers_accepted_frame :
+  forall v st buf frags res body m tl,
+    dpos st + dlen st <= dcurr st -> dcurr st <= length buf -> dcode st = 0 ->
+    (dmsg st = Some (dlen st) \/ (dmsg st = None /\ dlen st = 0)) ->
+    skipn (dcurr st) buf = body ++ 0%N :: tl -> sdec v body = Some m ->
+    length body + 16 <= dcurr st - (dpos st + dlen st) ->
+    let '(r, st', buf') := dec_call_res v st buf frags res false in
+    r = DMsg /\ decoded st' buf' = m /\ dmsg st' = Some (length m) /\
+    dcurr st' = dcurr st + length body + 1 /\ skipn (dcurr st') buf' = tl.
+Proof. exact dec_call_complete. Qed.
+
 (* ---- non-vacuity ---- *)
 Example C03_hon_start : forall v c, 1 <= c -> hon v [nb c] [] c 0.
 Proof. exact hon_start. Qed.
@@ -162,3 +177,4 @@ Print Assumptions C03_accepted_frame_is_delivered.
 Print Assumptions C03_accepted_frame_is_delivered_cobs.
 Print Assumptions C03_call_delivers_reference_decoding.
 Print Assumptions C03_history_delivers_frames.
+Print Assumptions C03_call_delivers_accepted_frame.
